@@ -34,6 +34,7 @@
 (*   "list"      r[i] is the reward of the i-th action (a sequence)        *)
 (*   "binary"    BinaryReward(a[1], r[1])          primitives.py 563-582   *)
 (*   "discrete"  DiscreteReward(a, r, default=d)   primitives.py 638-685   *)
+(*   "mapping"   DiscreteReward({a[j]: r[j]}, default=d)  (same meaning)   *)
 (*   "hamming"   HammingReward(a)                  primitives.py 603-626   *)
 (*   "l1"        L1Reward(d)                       primitives.py 533-548   *)
 (*   "fn"        an arbitrary callable: a lookup table a -> r that answers *)
@@ -47,6 +48,7 @@ CONSTANTS MaxLen,     \* longest chain of filters explored
                                     \* "full" | "lite" | "tiny" | "off"
           Shapes,     \* action shapes explored in this run (subset of AllShapes)
           Flavours,   \* subset of {"sim","igl","iglmix","logged"}
+          Mixes,      \* reward forms that change between the interactions of one environment: "none" | "few" | "all" | "only"
           Envs        \* subset of {"one","same","diff","samediff","rev"}
 
 VARIABLES case,     \* the environment as generated (never changes)
@@ -161,7 +163,7 @@ SparsifySteps(lv) ==      \* Sparsify(context = x, action = y)
 DensifySteps(lv) ==       \* Densify(method = lookup (n = 0) / hashing (n = 1), context = x, action = y)
   CASE lv = "full" -> {St("densify", c, a, k) : c \in Flag, a \in Flag, k \in {0, 1}}
     [] lv = "lite" -> {St("densify", "T", "T", 0), St("densify", "F", "T", 1), St("densify", "T", "F", 1)}
-    [] lv = "tiny" -> {St("densify", "T", "T", 1)}
+    [] lv = "tiny" -> {St("densify", "T", "T", 0)}
     [] OTHER -> {}
 NoiseSteps(lv) ==         \* Noise(action = a callable / ('g',0,1) / (0,1)), nothing else noised
   CASE lv = "full" -> {St("noise", "fn", "", 0), St("noise", "g3", "", 0), St("noise", "g2", "", 0)}
@@ -207,7 +209,7 @@ Bin(am, val)    == [k |-> "binary", a |-> <<am>>, r |-> <<val>>, d |-> P(0)]
 (* the reward the object R gives to the action x, when asked *)
 EvalV(R, x) ==
   CASE R.k = "binary" -> (IF x = R.a[1] THEN R.r[1] ELSE P(0))                                  \* 578-582
-    [] R.k \in {"discrete", "fn"} -> (LET j == IndexOf(x, R.a) IN IF j = 0 THEN R.d ELSE R.r[j]) \* 676-685
+    [] R.k \in {"discrete", "mapping", "fn"} -> (LET j == IndexOf(x, R.a) IN IF j = 0 THEN R.d ELSE R.r[j]) \* 676-685
     [] R.k = "hamming" -> (LET el == x.v                                                        \* 615-626
                                ni == Cardinality({p \in DOMAIN el : \E q \in DOMAIN R.a : R.a[q] = el[p]})
                            IN  <<ni, Len(R.a) + Len(el) - ni>>)
@@ -273,20 +275,37 @@ MkR(rk, n, as, mul, off) ==
        [] rk = "disc"     -> Disc(as, rv, P(0))
        [] rk = "discrev"  -> Disc(Rev(as), Rev(rv), P(0))                         \* the same table, written in another order
        [] rk = "discpart" -> Disc(SubSeq(as, 1, K - 1), SubSeq(rv, 1, K - 1), P(mul * 7))   \* the last action earns the default
+       [] rk = "discmap"  -> [k |-> "mapping", a |-> Tail(as) \o <<as[1]>>, r |-> Tail(rv) \o <<rv[1]>>, d |-> P(0)]   \* DiscreteReward({action: reward}), yet another order
        [] rk = "fn"       -> [k |-> "fn", a |-> as, r |-> rv, d |-> P(-99)]
        [] rk = "hamming"  -> [k |-> "hamming", a |-> (IF (n + off) % 2 = 1 THEN <<Num(1), Num(2)>> ELSE <<Num(3)>>), r |-> <<>>, d |-> P(0)]
        [] rk = "l1"       -> [k |-> "l1", a |-> <<>>, r |-> <<>>, d |-> P(n + off + 1)]
+(* THE FORM OF THE REWARD OBJECT MAY CHANGE FROM ONE INTERACTION TO THE NEXT.  A choice [name, p, q] gives interaction n the     *)
+(* form p when n is odd and q when n is even (IGL feedbacks the other way round, so that rewards and feedbacks of one        *)
+(* interaction differ in form too); p = q is the uniform environment.  Conserved judges every interaction on ITS OWN objects: *)
+(* what a filter found out about one interaction's reward object (is it a table in action-set order, is it a BinaryReward,  *)
+(* does it need re-keying) says nothing about the next one's, even when both share their action set.  Only the distinction  *)
+(* sequence / function is uniform in an environment (every filter of coba reads it off the first interaction).             *)
+Forms    == {"disc", "discrev", "discmap", "binary", "fn"}
+MixAll   == {m \in {[name |-> p \o "+" \o q, p |-> p, q |-> q] : p \in Forms, q \in Forms} : m.p # m.q}
+MixFew   == {m \in MixAll : <<m.p, m.q>> \in {<<"disc", "discrev">>, <<"disc", "discmap">>, <<"discrev", "disc">>, <<"discmap", "binary">>,
+                                              <<"binary", "discrev">>, <<"fn", "disc">>, <<"disc", "fn">>, <<"binary", "fn">>}}
+KindChoices(sh) ==
+  LET base == {[name |-> k, p |-> k, q |-> k] : k \in RewardKinds(sh)}
+  IN CASE Mixes = "none" -> base [] Mixes = "few" -> base \cup MixFew [] Mixes = "all" -> base \cup MixAll [] Mixes = "only" -> MixAll
+KindAt(ch, n) == IF n % 2 = 1 THEN ch.p ELSE ch.q
+
 FeedbackKind(fl, rk) == IF fl = "igl" THEN rk ELSE IF rk = "list" THEN "fn" ELSE "list"
 
 ----------------------------------------------------------------------------
 Init ==
-  \E sh \in Shapes : \E rk \in RewardKinds(sh) : \E fl \in Flavours : \E env \in Envs :
+  \E sh \in Shapes : \E ch \in KindChoices(sh) : \E fl \in Flavours : \E env \in {e \in Envs : ch.p # ch.q => Len(EnvUse(e)) >= 2} :
     LET sets == ShapeSets(sh)
+        rk   == ch.name
         use  == EnvUse(env)
         Ns   == DOMAIN use
         A0   == [n \in Ns |-> sets[use[n]]]
-        R0   == [n \in Ns |-> MkR(rk, n, A0[n], 1, 0)]
-        F0   == [n \in Ns |-> IF fl \in {"igl", "iglmix"} THEN MkR(FeedbackKind(fl, rk), n, A0[n], 10, 1) ELSE NoneR]
+        R0   == [n \in Ns |-> MkR(KindAt(ch, n), n, A0[n], 1, 0)]
+        F0   == [n \in Ns |-> IF fl \in {"igl", "iglmix"} THEN MkR(FeedbackKind(fl, KindAt(ch, n + 1)), n, A0[n], 10, 1) ELSE NoneR]
         lg   == fl = "logged"
         M0   == [n \in Ns |-> IF lg THEN ((n + 1) % Len(A0[n])) + 1 ELSE 0]
     IN /\ case = [shape |-> sh, rk |-> rk, fl |-> fl, env |-> env, sets |-> sets, use |-> use, R0 |-> R0, F0 |-> F0,
